@@ -339,8 +339,28 @@ def restart_real(env, case):
         hook()
         for e in b._SyncObj__raftLog[:]:
             env.pickled[e[1]] = env.pickle.dumps(e)
-        return {"post": snap["st"], "x": snap["x"], "pre_log": pre_log, "dump": dump_entries,
-                "meta_commit": b._SyncObj__raftLog.getRaftCommitIndex()}
+        res = {"post": snap["st"], "x": snap["x"], "pre_log": pre_log, "dump": dump_entries,
+               "meta_commit": b._SyncObj__raftLog.getRaftCommitIndex()}
+        if case.get("twice"):
+            # killed again right after the start-up block: a THIRD object on the files the second one left behind
+            # (`PSO.C06.restart_twice_is_restart_once`: the same node comes back)
+            sim.objs.pop(n0, None)
+            sim._start(n0, others=others)
+            c = sim.objs[n0]
+            held.append(c)
+            snap2 = {}
+            env.obj = c
+
+            def hook2():
+                if not snap2:
+                    snap2["st"] = env.extract()
+                    snap2["x"] = {"votedFor": None if c._SyncObj__votedForNodeId is None else L.nnum(c._SyncObj__votedForNodeId),
+                                  "votes": c._SyncObj__votesCount}
+            c._SyncObj__applyLogEntries = hook2
+            sim.tick(n0, 0.0)
+            hook2()
+            res["post2"], res["x2"] = snap2["st"], snap2["x"]
+        return res
     finally:
         env.obj = saved[3]
         for o in held:
